@@ -30,10 +30,15 @@ pub struct Scn {
     /// the server's acceptor terminates TLS; clients speak TLS (silent clients send the first n bytes
     /// of a recorded ClientHello instead of preface bytes)
     pub tls: bool,
+    /// the caller keeps the completed server future alive (`(&mut server).await`, `select!` on `&mut server`)
+    /// until the clients are released, instead of dropping it when it resolves
+    pub keep_future: bool,
 }
 
 macro_rules! spawn_server {
-    ($s:expr, $proto:expr, $incoming:expr, $obs:expr, $rx:expr) => {{
+    ($s:expr, $proto:expr, $incoming:expr, $obs:expr, $rx:expr, $keep:expr, $hold:expr) => {{
+        let keep: bool = $keep;
+        let hold_srv = $hold.clone();
         let obs = $obs.clone();
         let obs_h = $obs.clone();
         let exec = $s.exec.clone();
@@ -47,8 +52,14 @@ macro_rules! spawn_server {
                 let _ = $rx.await;
             });
         $s.spawn("server", async move {
-            let r = server.await;
+            let mut fut = Box::pin(std::future::IntoFuture::into_future(server));
+            let r = (&mut fut).await;
             obs.lock().unwrap().server_result = Some(r.map_err(|e| e.to_string()));
+            if keep {
+                // shutting the connections down must not depend on the completed future being dropped
+                hold_srv.wait().await;
+            }
+            drop(fut);
         });
     }};
 }
@@ -77,12 +88,12 @@ pub fn run_one(scn: &Scn, schedule: &[usize]) -> Execution<Outcome> {
     }
     let connector = fx.as_ref().map(|f| f.any_cert_connector.clone());
     match (&fx, scn.srv) {
-        (None, SrvProto::Http1) => spawn_server!(s, http1::Builder::new(), incoming, obs, sig_rx),
-        (None, SrvProto::Http2) => spawn_server!(s, http2::Builder::new(s.exec.clone()), incoming, obs, sig_rx),
-        (None, SrvProto::Auto) => spawn_server!(s, AutoBuilder::new(s.exec.clone()), incoming, obs, sig_rx),
-        (Some(f), SrvProto::Http1) => spawn_server!(s, http1::Builder::new(), Acceptor::from(incoming).with_tls(f.server_config.clone()), obs, sig_rx),
-        (Some(f), SrvProto::Http2) => spawn_server!(s, http2::Builder::new(s.exec.clone()), Acceptor::from(incoming).with_tls(f.server_config.clone()), obs, sig_rx),
-        (Some(f), SrvProto::Auto) => spawn_server!(s, AutoBuilder::new(s.exec.clone()), Acceptor::from(incoming).with_tls(f.server_config.clone()), obs, sig_rx),
+        (None, SrvProto::Http1) => spawn_server!(s, http1::Builder::new(), incoming, obs, sig_rx, scn.keep_future, hold),
+        (None, SrvProto::Http2) => spawn_server!(s, http2::Builder::new(s.exec.clone()), incoming, obs, sig_rx, scn.keep_future, hold),
+        (None, SrvProto::Auto) => spawn_server!(s, AutoBuilder::new(s.exec.clone()), incoming, obs, sig_rx, scn.keep_future, hold),
+        (Some(f), SrvProto::Http1) => spawn_server!(s, http1::Builder::new(), Acceptor::from(incoming).with_tls(f.server_config.clone()), obs, sig_rx, scn.keep_future, hold),
+        (Some(f), SrvProto::Http2) => spawn_server!(s, http2::Builder::new(s.exec.clone()), Acceptor::from(incoming).with_tls(f.server_config.clone()), obs, sig_rx, scn.keep_future, hold),
+        (Some(f), SrvProto::Auto) => spawn_server!(s, AutoBuilder::new(s.exec.clone()), Acceptor::from(incoming).with_tls(f.server_config.clone()), obs, sig_rx, scn.keep_future, hold),
     }
     for (i, p) in scn.clients.iter().enumerate() {
         let id = (i + 1) as u32;
@@ -245,6 +256,7 @@ pub fn scenarios(thorough: bool) -> Vec<Scn> {
         late_client: late,
         bufsize,
         tls: false,
+        keep_future: false,
     };
     let mks = |name: &str, srv, silent: Vec<usize>, clients: Vec<Proto>| Scn {
         name: name.to_string(),
@@ -254,6 +266,7 @@ pub fn scenarios(thorough: bool) -> Vec<Scn> {
         late_client: false,
         bufsize: 1024,
         tls: false,
+        keep_future: false,
     };
     v.push(mk("h1-0conn", SrvProto::Http1, vec![], false, 1024));
     v.push(mk("h1-1conn", SrvProto::Http1, vec![Proto::H1], false, 1024));
@@ -264,6 +277,10 @@ pub fn scenarios(thorough: bool) -> Vec<Scn> {
     v.push(mk("h1-1conn-smallbuf", SrvProto::Http1, vec![Proto::H1], false, 16));
     v.push(mk("h1-2conn", SrvProto::Http1, vec![Proto::H1, Proto::H1], false, 1024));
     v.push(mk("auto-2conn-mixed", SrvProto::Auto, vec![Proto::H1, Proto::H2], false, 1024));
+    // the completed server future kept alive by its caller until the end
+    v.push(Scn { keep_future: true, ..mk("h1-1conn-future-kept", SrvProto::Http1, vec![Proto::H1], false, 1024) });
+    v.push(Scn { keep_future: true, ..mk("auto-2conn-mixed-future-kept", SrvProto::Auto, vec![Proto::H1, Proto::H2], false, 1024) });
+    v.push(Scn { keep_future: true, ..mks("auto-silent-future-kept", SrvProto::Auto, vec![0], vec![]) });
     // connections that are open but have not sent a (complete) first request when the signal comes
     v.push(mks("auto-silent", SrvProto::Auto, vec![0], vec![]));
     v.push(mks("auto-partial-preface", SrvProto::Auto, vec![10], vec![]));
